@@ -1636,4 +1636,98 @@ Section Inv.
     destruct Hf as (f & ->). destruct data as [|b0 d0]; [contradiction|]. cbn [write_loop].
     rewrite Hm, Hp, !Z.eqb_refl. cbn [tl]. rewrite create_next_refused. split; reflexivity.
   Qed.
+
+  (* ---- device read failures (C19): whatever blocks the device refuses to read, a read call returns only true bytes ---- *)
+  Section Faults.
+    Variable bad : Z -> bool.
+
+    Lemma rd_data_mono t n d : rd_data bs bad t n = Some d -> rd_data bs nobad t n = Some d.
+    Proof. unfold rd_data, nobad. destruct (n <? 1); [discriminate|]. destruct (bad n); [discriminate|]. cbn [orb]. trivial. Qed.
+
+    Lemma rd_ext_mono t n x : rd_ext bad t n = Some x -> rd_ext nobad t n = Some x.
+    Proof. unfold rd_ext, nobad. destruct (bad n); [discriminate|]. trivial. Qed.
+
+    Lemma load_ext_mono t n t' : load_ext bad t n = (true, t') -> load_ext nobad t n = (true, t').
+    Proof. unfold load_ext. destruct (rd_ext bad t n) eqn:Hr; [|discriminate]. rewrite (rd_ext_mono _ _ _ Hr). trivial. Qed.
+
+    (* a block fetch that succeeds on the faulty device is the fetch of the fault-free device *)
+    Lemma read_next_mono t t' : read_next bs ofs bad t = (true, t') -> read_next bs ofs nobad t = (true, t').
+    Proof.
+      unfold read_next. destruct (ndb t =? 0).
+      - destruct (_ <? 2); [discriminate|]. destruct (rd_data bs bad t _) eqn:Hr; [|discriminate]. rewrite (rd_data_mono _ _ _ Hr). trivial.
+      - destruct (ndb t <? MAXDB).
+        + destruct (_ <? 2); [discriminate|]. destruct (rd_data bs bad t _) eqn:Hr; [|discriminate]. rewrite (rd_data_mono _ _ _ Hr). trivial.
+        + destruct (ndb t =? MAXDB).
+          * destruct (load_ext bad _ _) as [[|] sx] eqn:Hl; [|cbn; discriminate]. rewrite (load_ext_mono _ _ _ Hl). cbn -[Z.ltb].
+            destruct (_ <? 2); [discriminate|]. destruct (rd_data bs bad _ _) eqn:Hr; [|discriminate]. rewrite (rd_data_mono _ _ _ Hr). trivial.
+          * destruct (pinx t =? MAXDB).
+            -- destruct (load_ext bad _ _) as [[|] sx] eqn:Hl; [|cbn; discriminate]. rewrite (load_ext_mono _ _ _ Hl). cbn -[Z.ltb].
+               destruct (_ <? 2); [discriminate|]. destruct (rd_data bs bad _ _) eqn:Hr; [|discriminate]. rewrite (rd_data_mono _ _ _ Hr). trivial.
+            -- cbn -[Z.ltb]. destruct (_ <? 2); [discriminate|]. destruct (rd_data bs bad _ _) eqn:Hr; [|discriminate]. rewrite (rd_data_mono _ _ _ Hr). trivial.
+    Qed.
+
+    Lemma read_loop_faulty L E ct : forall fuel s n, Inv s L E -> Repr s L ct -> cur s <> 0 -> 0 <= n -> pos s + n <= fsize s ->
+      exists s' r m, read_loop bs ofs bad fuel s n = (s', r) /\ 0 <= m <= n /\ r = sub ct (pos s) m /\ len r = m.
+    Proof.
+      induction fuel as [|fuel IH]; intros s n I R Hc Hn Hle.
+      - exists s, [], 0. splits; try reflexivity; lia.
+      - cbn [read_loop]. destruct (Z.leb_spec n 0) as [Hz|Hz]; [exists s, [], 0; splits; try reflexivity; lia|].
+        assert (Hpos0 : 0 <= pos s) by (destruct (normal_facts s L E I Hc) as (_ & Hnn & Hp & Hpi & _); nia).
+        assert (Hlct : len ct = fsize s) by (destruct R as (Hl & _); exact Hl).
+        assert (Hprep : (exists sf, (if pind s =? bs
+                                  then match read_next bs ofs bad (settle s) with
+                                       | (true, sn) => (true, set_chg (set_pind sn 0) false)
+                                       | (false, sn) => (false, set_cur sn 0)
+                                       end
+                                  else (true, s)) = (false, sf))
+                 \/ (exists s1, (if pind s =? bs
+                                  then match read_next bs ofs bad (settle s) with
+                                       | (true, sn) => (true, set_chg (set_pind sn 0) false)
+                                       | (false, sn) => (false, set_cur sn 0)
+                                       end
+                                  else (true, s)) = (true, s1)
+                      /\ Inv s1 L E /\ Repr s1 L ct /\ pos s1 = pos s /\ cur s1 <> 0 /\ 0 <= pind s1 < bs /\ fsize s1 = fsize s)).
+        { destruct (Z.eqb_spec (pind s) bs) as [Hb|Hb].
+          - destruct (read_next bs ofs bad (settle s)) as [[|] sn] eqn:Hrn; [|left; eexists; reflexivity].
+            right. destruct (advance_ok s L E ct I R Hc Hb ltac:(lia)) as (sn0 & Hrn0 & I1 & R1 & P1 & C1 & Pi1 & F1 & W1 & M1 & _).
+            rewrite (read_next_mono _ _ Hrn) in Hrn0. injection Hrn0 as <-.
+            eexists. splits; try reflexivity; try assumption; cbn; try lia. unfold fsize. cbn. unfold fsize in *. cbn in F1. rewrite F1. reflexivity.
+          - right. exists s. destruct (normal_facts s L E I Hc) as (_ & _ & _ & Hpi & _). splits; try reflexivity; try assumption; lia. }
+        unfold settle in Hprep. destruct Hprep as [(sf & Hpr)|(s1 & Hpr & I1 & R1 & P1 & C1 & Hpi1 & F1)]; rewrite Hpr; cbn [negb].
+        + exists sf, [], 0. splits; try reflexivity; lia.
+        + set (size := Z.min n (bs - pind s1)).
+          assert (Hsz : 0 < size <= n /\ pind s1 + size <= bs) by (subst size; lia).
+          set (s2 := set_pind (set_pos s1 (pos s1 + size)) (pind s1 + size)).
+          assert (I2 : Inv s2 L E).
+          { destruct I1 as (B1 & HL1 & C1'). split; [|split].
+            - apply (base_frame s1); try reflexivity. assumption.
+            - exact HL1.
+            - destruct C1' as [(_ & Hz0 & _)|(Hcu & Hnn & Hp & Hpi & Hps & Hlen & Hcl & Hnx & Hxc)]; [contradiction|].
+              right. subst s2. unfold fsize, ext_cursor in *. cbn. splits; try assumption; try lia. }
+          assert (R2 : Repr s2 L ct) by (apply (repr_frame s1); try reflexivity; assumption).
+          destruct (IH s2 (n - size) I2 R2 C1 ltac:(lia)) as (s3 & r & m & Hrl & Hm & Hr & Hlr).
+          { subst s2. unfold fsize in *. cbn. lia. }
+          fold size. fold s2. rewrite Hrl. exists s3, (sub (d_bytes (cdata s1)) (pind s1) size ++ r), (size + m).
+          rewrite (chunk_ok s1 L E ct size I1 R1 C1) by lia. splits; try reflexivity; try lia.
+          * rewrite Hr. subst s2. cbn. rewrite P1. rewrite sub_app by lia. reflexivity.
+          * rewrite len_app, Hlr. rewrite len_sub by lia. lia.
+    Qed.
+
+    Theorem fio_read_faulty s L E ct n : Inv s L E -> Repr s L ct -> 0 <= n ->
+      exists s' r m, fio_read bs ofs bad s n = (s', r) /\ 0 <= m <= Z.max 0 (Z.min n (fsize s - pos s)) /\ r = sub ct (pos s) m /\ len r = m.
+    Proof.
+      intros I R Hn. pose proof I as (B & HL & C). pose proof (b_size _ _ _ B) as Hsz.
+      assert (Hps : 0 <= pos s <= fsize s) by (destruct C as [(Hz & _ & Hp & _)|(_ & Hnn & Hp & Hpi & Hle & _)]; [lia|nia]).
+      unfold fio_read, at_eof.
+      destruct (negb (mr s) || (n =? 0) || (fsize s =? 0) || (pos s =? fsize s) || (cur s =? 0)) eqn:Hg.
+      - exists s, [], 0. splits; try reflexivity; lia.
+      - repeat (apply orb_false_elim in Hg; destruct Hg as (Hg & ?)). destruct (Z.eqb_spec (cur s) 0) as [|Hc]; [discriminate|].
+        destruct (Z.eqb_spec n 0); [discriminate|]. destruct (Z.eqb_spec (pos s) (fsize s)); [discriminate|].
+        set (n' := if fsize s <? pos s + n then fsize s - pos s else n).
+        assert (Hn' : n' = Z.max 0 (Z.min n (fsize s - pos s)) /\ 0 < n') by (subst n'; destruct (Z.ltb_spec (fsize s) (pos s + n)); lia).
+        destruct Hn' as (Hk & Hpos').
+        destruct (read_loop_faulty L E ct (Z.to_nat (n' / bs + 2)) s n' I R Hc ltac:(lia) ltac:(lia)) as (s' & r & m & Hrl & Hm & Hr & Hlr).
+        exists s', r, m. rewrite <- Hk. splits; try assumption; lia.
+    Qed.
+  End Faults.
 End Inv.
